@@ -42,7 +42,8 @@ def gen_case(rng, explicit, snippet_names):
     texts = ['t', 'hello world', 'l1\nl2']
     if explicit:
         attrs += ['[f=${1:f1}]', '[g="${2:f2} x ${4:f4}"]', '[h=${0:f0}]', '[m=${3:f3}${3:f3}]', '[n="a ${1:f1}"]']
-        texts += ['a ${1:f1} b ${3:f3}', '${0:f0}', '${2:f2}${2:f2}', 'x ${5:f5}\ny ${1:f1}', 'p ${1:m1\nm2} q', '${2:r1\r\nr2}${1:s}', 'c1\rc2', 'e1\n\ne3']
+        texts += ['a ${1:f1} b ${3:f3}', '${0:f0}', '${2:f2}${2:f2}', 'x ${5:f5}\ny ${1:f1}', 'p ${1:m1\nm2} q', '${2:r1\r\nr2}${1:s}', 'c1\rc2', 'e1\n\ne3',
+                  'a ${1:t1\n} b', '${1:x\x0cy} ${2:p\x85q}', '${3:u\u2028v}w', '${1:\n\n}z', '${2:k\x0bl\x1cm}']
         attrs += ['[o="${1:v1\nv2}"]']
     tree = gen_abbr.gen_tree(rng, names=names, p_text=0.3, texts=texts, attrs=attrs, p_attr=0.45, p_class=0.2, p_id=0.1, p_group=0.12, p_rep=0.15,
                              max_rep=3, classes=['c1', 'c2'], ids=['i1', 'i2'], p_selfclose=0.0, **(dict(max_depth=rng.choice([2, 3, 4])) if rng.random() < 0.88 else
@@ -73,6 +74,8 @@ class Run:
 
     def field(self, index, placeholder, **k):
         r = '⟦%d:%s⟧' % (index, placeholder)
+        if self.mode == 'bare':
+            r = placeholder         # what a plain-text consumer does: the placeholder itself (may be empty, may END with a line break)
         self.ev.append(('field', k.get('offset'), k.get('line'), k.get('column'), r))
         return r
 
@@ -196,7 +199,7 @@ class Mon:
 
 
 CSS_ABBRS = ['p10+m', 'bd', 'm+p+c', 'anim', '@kf', 'trf:r', 'bxsh', 'c#f+bgc', 'p${1:foo}', 'lg', 'fz1.5+lh', '@m', 'cnt', 'to', 'bgp', 'p!+m0-a',
-             'c:"a\nb"', "cnt:'x\r\ny'${1:z}", 'bg:u("a\nb")', 'ff:"l1\rl2"', 'cnt:"one\n\nthree"', 'p${1:a\nb}']
+             'c:"a\nb"', "cnt:'x\r\ny'${1:z}", 'bg:u("a\nb")', 'ff:"l1\rl2"', 'cnt:"one\n\nthree"', 'p${1:a\nb}', 'm${1:t\n}+p', 'p${1:x\x0cy}${2:u\u2028v}+m', 'c:"f\x0cg"+m']
 
 
 def run_shard(desc, ctx):
@@ -248,7 +251,7 @@ def run_shard(desc, ctx):
                 opts['comment.enabled'] = True
             flags = {'explicit': explicit, 'snippet_names': snippet_names,
                      'numbering': syntax in ('html', 'xml', 'jsx', 'vue') and not opts.get('comment.enabled')}
-            mode = rng.choice(['id', 'double', 'wrap'])
+            mode = rng.choice(['id', 'double', 'wrap', 'bare'])
             if flags['numbering'] and mode != 'id':
                 mode = 'id' if rng.random() < 0.7 else mode
             if mode != 'id':
@@ -258,7 +261,7 @@ def run_shard(desc, ctx):
                 a = '+'.join(rng.choice(CSS_ABBRS) for _ in range(rng.randint(1, 3)))
                 sopts = {'output.newline': rng.choice(['\n', '\r\n', '\r']), 'output.baseIndent': rng.choice(['', '  ', '\t'])}
                 mon.check(a, {'type': 'stylesheet', 'syntax': rng.choice(['css', 'scss', 'sass', 'stylus']), 'options': sopts},
-                          rng.choice(['id', 'double', 'wrap']), {'numbering': False}, 'stylesheet-run')
+                          rng.choice(['id', 'double', 'wrap', 'bare']), {'numbering': False}, 'stylesheet-run')
     finally:
         pr.uninstall()
     for k, v in pr.reach().items():
